@@ -337,8 +337,7 @@ pub fn run(s: &CrlShape) {
     #[cfg(feature = "ring")]
     crate::env::digest_stub::layout_ok();
     let mut store = ManuallyDrop::new([make_revoked(s, 0), make_revoked(s, 1)]);
-    let revoked: Vec<RevokedCertParams> =
-        if s.revoked.is_empty() { Vec::new() } else { unsafe { Vec::from_raw_parts(store.as_mut_ptr(), s.revoked.len(), 2) } };
+    let revoked: Vec<RevokedCertParams> = crate::cert::backed_vec(&mut store, s.revoked.len());
     let idp = if s.idp == 0 {
         None
     } else {
@@ -399,7 +398,7 @@ pub fn run(s: &CrlShape) {
 /// Which (date, date) relation the guard query fixes (all lengths stay concrete).
 /// 0: same day; 1: next_update one day later; 2: next_update one day earlier;
 /// 3: across 2049-12-31 / 2050-01-01 (UTCTime vs GeneralizedTime)
-pub fn guards(rel: u8) {
+pub fn guards(rel: u8, n_ku: u8) {
     let (d_this, d_next) = match rel {
         0 => ((2030, 6, 15), (2030, 6, 15)),
         1 => ((2030, 6, 15), (2030, 6, 16)),
@@ -420,8 +419,6 @@ pub fn guards(rel: u8) {
     let this_update = mk(d_this, t[0], t[1], t[2], ns[0]);
     let next_update = mk(d_next, t[3], t[4], t[5], ns[1]);
     // issuer key usages: none, or up to two arbitrary purposes
-    let n_ku: u8 = kani::any();
-    kani::assume(n_ku <= 2);
     let all = KU_CLASSES[5];
     let mut kus = Vec::new();
     let mut has_crl_sign = false;
